@@ -148,6 +148,24 @@ type Node struct {
 	BlockSize int
 	App       *evm.EVMApp
 	Starts    int
+	Started   time.Time // when the application (and its pool's eviction ticker) was last started
+	// headers of the committed blocks: the Node is the application's gtypes.Core (block store) like Angine is
+	Metas map[int64]*gtypes.BlockMeta
+}
+
+// Query implements gtypes.Core (transaction lookups are not used by the checks).
+func (n *Node) QueryCore(byte, []byte) (interface{}, error) {
+	return nil, fmt.Errorf("verif: no tx index")
+}
+
+type coreStub struct{ n *Node }
+
+func (c coreStub) Query(t byte, b []byte) (interface{}, error) { return c.n.QueryCore(t, b) }
+func (c coreStub) GetBlockMeta(height int64) (*gtypes.BlockMeta, error) {
+	if m, ok := c.n.Metas[height]; ok {
+		return m, nil
+	}
+	return nil, fmt.Errorf("verif: no block meta for height %d", height)
 }
 
 func conf(dir string, blockSize int) *viper.Viper {
@@ -163,7 +181,7 @@ func NewNode(blockSize int) (*Node, error) {
 	if err != nil {
 		return nil, err
 	}
-	n := &Node{Dir: dir, BlockSize: blockSize}
+	n := &Node{Dir: dir, BlockSize: blockSize, Metas: map[int64]*gtypes.BlockMeta{}}
 	if err := n.open(); err != nil {
 		os.RemoveAll(dir)
 		return nil, err
@@ -179,7 +197,9 @@ func (n *Node) open() error {
 	if err := app.Start(); err != nil {
 		return err
 	}
+	app.SetCore(coreStub{n})
 	n.App = app
+	n.Started = time.Now()
 	n.Starts++
 	return nil
 }
@@ -242,6 +262,7 @@ func (n *Node) Commit(b *gtypes.Block) (res gtypes.CommitResult, err error, pnc 
 		r, err = n.App.OnCommit(b.Height, 0, b)
 		if rr, ok := r.(gtypes.CommitResult); ok {
 			res = rr
+			n.Metas[b.Height] = &gtypes.BlockMeta{Hash: b.Hash(), Header: b.Header}
 		}
 	})
 	return
@@ -341,6 +362,20 @@ func (n *Node) KVGet(key []byte) (found bool, val []byte, err error) {
 func (n *Node) Counter() (ret []byte, err error) {
 	tgt := Target()
 	q := SignedTx(Key(1), 0, &tgt, 0, 1000000, 0, []byte{3})
+	res, p, st := n.Query(rtypes.QueryType_Contract, q)
+	if p != nil {
+		return nil, fmt.Errorf("panic: %v\n%s", p, st)
+	}
+	if res.Code != gtypes.CodeType_OK {
+		return nil, fmt.Errorf("query contract: %v %s", res.Code, res.Log)
+	}
+	return res.Data, nil
+}
+
+// Env asks the counter contract for (NUMBER, TIMESTAMP) of the header a contract-call query runs under.
+func (n *Node) Env() (ret []byte, err error) {
+	tgt := Target()
+	q := SignedTx(Key(1), 0, &tgt, 0, 1000000, 0, []byte{6})
 	res, p, st := n.Query(rtypes.QueryType_Contract, q)
 	if p != nil {
 		return nil, fmt.Errorf("panic: %v\n%s", p, st)
